@@ -27,6 +27,7 @@ Section CLines.
     match l with [] => [] | (g, n) :: rest => ([" "], canon_child n) :: canon_inline rest end.
 End CLines.
 
+Definition grc (r : bool) : str := if r then [" "] else [].
 Fixpoint canon (c : cnode) (ind : nat) : cnode :=
   match c with
   | CAtom isint t => CAtom isint (if isint then strip_zeros t else t)
@@ -36,14 +37,14 @@ Fixpoint canon (c : cnode) (ind : nat) : cnode :=
       else CBind name [" "] [" "] (canon v ind) []
   | CSet r gr body cg =>
       match body with
-      | [] => CSet r [" "] [] (if has_empty_line cg then LF :: LF :: sp ind else [" "])
+      | [] => CSet r (grc r) [] (if has_empty_line cg then LF :: LF :: sp ind else [" "])
       | _ =>
         if negb (has_nl (ctext c)) then
-          CSet r [" "]
+          CSet r (grc r)
             ((fix go (l : list (str * cnode)) : list (str * cnode) :=
                 match l with [] => [] | (g, n) :: t => ([" "], canon n (ind + 2)) :: go t end) body) [" "]
         else
-          CSet r [" "]
+          CSet r (grc r)
             ((fix go (l : list (str * cnode)) (prev : option cnode) (seen : bool) : list (str * cnode) :=
                 match l with
                 | [] => []
